@@ -67,6 +67,7 @@ pub fn run(a: &Args) -> Report {
         let mut rng = root.fork(case);
         let cfg = GenCfg {
             containers: rng.chance(1, 3),
+            nested_containers: rng.chance(1, 3),
             subsume: rng.chance(1, 2),
             delete: rng.chance(1, 3),
             pushpop: rng.chance(1, 4),
